@@ -51,7 +51,11 @@ OLD = "// an older, complete export\n"
 @st.composite
 def cases(draw):
     k = draw(st.integers(0, 9))
-    if k < 4:
+    if k < 1:
+        # a model that carries a repository (main file importing a library): the export adds one cluster block per file
+        sub = {"kind": "multi", "ndefs": draw(st.integers(1, 3))}
+        gen = "any-dot"
+    elif k < 4:
         sub = draw(c29.model_cases())
         gen = "any-dot"
     else:
@@ -206,6 +210,29 @@ def norm(text):
     return re.sub(r"\d{6,}", "N", text)
 
 
+_MULTI = {}
+
+
+def _multi_model(ndefs):
+    """a two-file model (main imports lib) loaded once per process and definition count"""
+    if ndefs not in _MULTI:
+        from textx import metamodel_from_str
+        from textx.scoping import providers as P
+
+        from vt.gen import files as F
+
+        d = tempfile.mkdtemp(prefix="c31-multi-")
+        with open(os.path.join(d, "lib.m"), "w") as f:
+            f.write("".join(f"def l{i}\n" for i in range(ndefs)))
+        with open(os.path.join(d, "main.m"), "w") as f:
+            f.write('import "lib.m"\n' + "".join(f"def m{i}\n" for i in range(ndefs)) + "use u0 -> l0\n")
+        mm = metamodel_from_str(F.grammar("", False))
+        mm.register_scope_providers({"*.*": P.PlainNameImportURI()})
+        _MULTI[ndefs] = (mm, mm.model_from_file(os.path.join(d, "main.m")))
+        shutil.rmtree(d, ignore_errors=True)
+    return _MULTI[ndefs]
+
+
 def build(case):
     """(callable(outdir, overwrite), target file name) or None"""
     from textx import metamodel_from_str
@@ -214,6 +241,15 @@ def build(case):
 
     sub = case["sub"]
     try:
+        if case["gen"] == "any-dot" and sub.get("kind") == "multi":
+            mmf, model = _multi_model(sub["ndefs"])
+            g = generator_for_language_target("any", "dot")
+
+            def run(outdir, overwrite):
+                model._tx_filename = os.path.join(outdir, "input.fam")
+                g(mmf, model, outdir, overwrite, False)
+
+            return run, "input.dot"
         if case["gen"] == "any-dot":
             mm = c29.family_mm()
             model = mm.model_from_str(c29.model_text(sub))
@@ -266,7 +302,7 @@ def evaluate(case):
             out.add("fault_free_run_unexpected_files", f"{sorted(os.listdir(ref_dir))}, ops {len(ctl.ops)}")
             return out
         with open(os.path.join(ref_dir, tname), encoding="utf-8") as f:
-            reference = norm(f.read())
+            reference = norm(f.read().replace(ref_dir, "<DIR>"))
         n = len(ctl.ops)
         k = case["op"] % n
         out.sample.update({"operations": n, "fail_at": k, "op_kind": ctl.ops[k]})
@@ -311,7 +347,7 @@ def evaluate(case):
                 content = f.read()
             if content == OLD and had_old:
                 state = "old"
-            elif norm(content) == reference:
+            elif norm(content.replace(work, "<DIR>")) == reference:
                 state = "new"
             else:
                 state = "partial"
@@ -335,7 +371,7 @@ def evaluate(case):
         if os.path.exists(target):
             with open(target, encoding="utf-8", errors="replace") as f:
                 content = f.read()
-            ok = norm(content) == reference or (content == OLD and had_old)
+            ok = norm(content.replace(work, "<DIR>")) == reference or (content == OLD and had_old)
         if not ok:
             out.add(f"rerun_without_overwrite_keeps_incomplete_file/{case['gen']}{feat}",
                     f"{where}: after the failed run a run without overwrite ends with an incomplete {tname}")
